@@ -127,6 +127,8 @@ def make_jobs(prop, tier, seed):
             jobs.append({"kind": "explore", "side": "queue", "prop": prop, "seed": seed * 32452843 + j, "scenarios": 8, "schedules": 6})
         jobs.append({"kind": "explore", "side": "queue", "join": True, "prop": prop, "seed": seed * 15485867 + 1, "scenarios": 6, "schedules": 4,
                      "no_driver": True})
+        # the real code on real OS threads: parked waiters and the library's own service threads use no CPU while nothing happens
+        jobs.append({"kind": "idle_cpu", "prop": prop, "seed": seed})
         # several threads parked on ONE Signal (the Lock gives every waiter its own): the M1 exploration with waiters only
         for j in range(3 if tier == "quick" else 16):
             jobs.append({"kind": "explore", "side": "signal", "prop": prop, "seed": seed * 86028121 + j, "scenarios": 10, "schedules": 6})
@@ -151,7 +153,42 @@ def _is_signal(job):
     return rp.get("model") == "m1"
 
 
+def run_idle_cpu(job):
+    import json
+    import os
+    env = dict(os.environ)
+    env["PYTHONPATH"] = plug.ds.REPO + os.pathsep + plug.lean_audit.VERIF
+    res = {"evaluations": 0, "transitions": 0, "context_switches": 0, "traces_validated": 0, "shapes": {},
+           "distinct": [], "corr_fail": [], "mon_fail": [], "known": [], "samples": [], "extra": {}}
+    rp = {"model": "c20-idle", "job": {"seed": job.get("seed", 0)}}
+    try:
+        p = plug.run_group(["/venv/bin/python", "-m", "harness.c20_idle"], plug.ds.REPO, env, 120)
+    except Exception as e:   # noqa
+        return {"infra_error": "idle-CPU probe could not be started: %r" % (e,)}
+    line = [l for l in p.stdout.decode("utf8", "replace").splitlines() if l.startswith("C20IDLE ")]
+    if not line:
+        return {"infra_error": "idle-CPU probe produced no result"}
+    out = json.loads(line[-1][8:])
+    res["evaluations"] = len(out["windows"])
+    res["shapes"]["idle-cpu"] = len(out["windows"])
+    for k, v in out["windows"].items():
+        if isinstance(v, (int, float)):
+            res["extra"]["idle_cpu_ms_" + k] = int(v * 1000)
+    for m in out["viol"]:
+        res["mon_fail"].append({"msg": m, "replay": rp, "signature": None})
+    return res
+
+
 def run_job(job):
+    if job["kind"] == "idle_cpu":
+        return run_idle_cpu(job)
+    rp_ = (job.get("replay") or {}).get("replay") or job.get("replay") or (job.get("failure") or {}).get("replay") or {}
+    if rp_.get("model") == "c20-idle":
+        if job["kind"] == "shrink":
+            return {"failure": job["failure"]}
+        r = run_idle_cpu({"seed": 0})
+        hit = r.get("mon_fail", []) if isinstance(r, dict) else []
+        return {"violated": bool(hit), "message": hit[0]["msg"] if hit else "no busy loop: every window used next to no CPU"}
     if job["kind"] == "layer":
         return plug.run_m1_layer(job, "the model of Lock (waiter.go() / both.wait() are single steps there)")
     r = plug.m1_layer_replay(job)
@@ -171,7 +208,7 @@ def run_job(job):
 
 
 def shrink(prop, failure):
-    if (failure.get("replay") or {}).get("model") in ("m1", "m1-layer"):
+    if (failure.get("replay") or {}).get("model") in ("m1", "m1-layer", "c20-idle"):
         return failure
     if (failure.get("replay") or {}).get("model") == "m4":
         return plug.std_shrink(MODELQ, prop, failure)
